@@ -162,44 +162,64 @@ def check_bounds(ctx):
 
 
 def check_string_order(ctx):
+    """Normalise first, check afterwards: in StringField._validate every constraint check (length, pattern, choices,
+    required-but-empty) comes after every transform (strip, case) on every path, and what is returned is the transformed
+    text.  The value is followed through local names (renamed locals, inlined helpers)."""
     an, model = ctx.an, ctx.model
     v = model.method("StringField", "_validate")
     g = an.cfg(v)
     reach = reachable_from_entry(an, v)
     vparam = v.positional_params[2]
+    # names that carry (something derived from) the value
+    tainted = {vparam}
+    changed = True
+    while changed:
+        changed = False
+        for n in g.nodes:
+            if n.kind == "assign" and isinstance(n.ast, (ast.Assign, ast.AnnAssign)) and n.ast.value is not None:
+                if any(isinstance(x, ast.Name) and x.id in tainted for x in ast.walk(n.ast.value)):
+                    tg = n.ast.targets if isinstance(n.ast, ast.Assign) else [n.ast.target]
+                    for t in tg:
+                        for x in ast.walk(t):
+                            if isinstance(x, ast.Name) and x.id not in tainted:
+                                tainted.add(x.id)
+                                changed = True
+    mentions = lambda e: any(isinstance(x, ast.Name) and x.id in tainted for x in ast.walk(e))
     transforms = {}
     for n in g.nodes:
-        if n.kind == "assign" and n in reach and isinstance(n.ast, ast.Assign) and any(isinstance(t, ast.Name) and t.id == vparam for t in n.ast.targets):
+        if n.kind == "assign" and n in reach and isinstance(n.ast, (ast.Assign, ast.AnnAssign)) and n.ast.value is not None:
             for x in ast.walk(n.ast.value):
-                if isinstance(x, ast.Call) and isinstance(x.func, ast.Attribute):
+                if isinstance(x, ast.Call) and isinstance(x.func, ast.Attribute) and mentions(x.func.value):
                     if x.func.attr in ("strip", "lstrip", "rstrip"):
                         transforms.setdefault("strip", []).append(n)
                     elif x.func.attr in ("lower", "upper", "casefold", "title", "capitalize"):
                         transforms.setdefault("case", []).append(n)
     ctx.need("strip" in transforms and "case" in transforms, "StringField._validate no longer strips / folds case: vanished anchors")
+    all_transforms = {n for ns in transforms.values() for n in ns}
     # checks: tests that mention the value and guard a raise
     checks = {}
     for t in g.nodes:
         if t.kind != "test" or t not in reach:
             continue
-        if not any(isinstance(x, ast.Name) and x.id == vparam for x in ast.walk(t.ast)):
+        tx = expand_aliases(v, t.ast, t)
+        if not mentions(t.ast) and not mentions(tx):
             continue
         guards_raise = False
         for lbl in (True, False):
-            for s, l2 in t.succ:
+            for s_, l2 in t.succ:
                 def blocks(n):
                     if n.kind == "return":
                         return True
-                    if n.kind == "test" and any(isinstance(x, ast.Name) and x.id == vparam for x in ast.walk(n.ast)):
+                    if n.kind == "test" and (mentions(n.ast)):
                         return True
-                    if n.kind == "assign" and isinstance(n.ast, ast.Assign) and any(isinstance(tt, ast.Name) and tt.id == vparam for tt in n.ast.targets):
+                    if n in all_transforms:
                         return True
                     return False
-                if l2 is lbl and (s.kind == "raise" or g.path(s, lambda n: n.kind == "raise", may_raise=lambda n: False, stop=blocks)):
+                if l2 is lbl and (s_.kind == "raise" or g.path(s_, lambda n: n.kind == "raise", may_raise=lambda n: False, stop=blocks)):
                     guards_raise = True
         if not guards_raise:
             continue
-        txt = ast.unparse(t.ast)
+        txt = ast.unparse(tx)
         if "isinstance" in txt:
             continue
         if "min_len" in txt:
@@ -229,7 +249,24 @@ def check_string_order(ctx):
                "checked against, and re-validating it gives a different verdict" % (ck, bad[0].lineno, tr, bad[1].lineno))
     # what is returned is the transformed variable
     for r in returns_of(an, v):
-        okr = isinstance(r.ast.value, ast.Name) and r.ast.value.id == vparam
+        okr = isinstance(r.ast.value, ast.Name) and r.ast.value.id in tainted
+        if okr:
+            # ... and not a copy taken before the transforms: no transform may follow a definition that reaches the return
+            from engine.defuse import reaching_defs
+            rdv = reaching_defs(v)
+            rname = r.ast.value.id
+            redefs = {n for n in g.nodes if any(dd.name == rname for dd in rdv.defs_at.get(n, []))}
+            for d in rdv.reaching(r, rname):
+                start = d.node if d.node is not None else g.entry
+                for tn in all_transforms:
+                    if tn in redefs:
+                        continue        # the transform re-binds the returned name itself: that is the normalised value
+                    # a transform applied to *another* name while this definition stays live up to the return: a stale copy
+                    stop = lambda n: n in redefs and n is not start
+                    if g.path(start, lambda n, tn=tn: n is tn, may_raise=lambda n: False, from_successors=True, stop=stop) and \
+                            g.path(tn, lambda n: n is r, may_raise=lambda n: False, from_successors=True, stop=stop):
+                        # ... unless the transformed value flows back into the returned name later (then `d` would not reach)
+                        okr = False
         ctx.ob("order.returns-normalised", v, r.ast, okr, "returns the normalised value" if okr else "does not return the normalised value", node=r)
 
 
@@ -378,22 +415,36 @@ def check_bool_number(ctx):
     nv = model.method("NumberField", "_validate")
     g = an.cfg(nv)
     vparam = nv.positional_params[2]
-    rej_bool = False
-    ftn = an.ft(nv)
-    bool_tests = [t for t in g.nodes if t.kind == "test" and isinstance(t.ast, ast.Call) and ast.unparse(t.ast.func) == "isinstance"
-                  and ast.unparse(t.ast.args[1]) == "bool"]
-    int_gates = [t for t in g.nodes if t.kind == "test" and isinstance(t.ast, ast.Call) and ast.unparse(t.ast.func) == "isinstance"
-                 and ("int" in (ftn.class_spec(t.ast.args[1], {}) or []) or "int" in ast.unparse(t.ast.args[1]).replace("(", " ").replace(")", " ").replace(",", " ").split())
-                 and t not in bool_tests]
-    for bt in bool_tests:
-        raises = any(lbl is True and (s.kind == "raise" or g.path(s, lambda x: x.kind == "raise", may_raise=lambda x: False, stop=lambda x: x.kind == "test"))
-                     for s, lbl in bt.succ)
-        # the bool test must be evaluated for values that pass the numeric type gate (bool is an int) -- or before the gate
-        reachable_for_ints = not int_gates or any(
-            g.path(s, lambda x, bt=bt: x is bt, may_raise=lambda x: False) for gt in int_gates for s, lbl in gt.succ if lbl is True) or \
-            any(g.path(bt, lambda x, gt=gt: x is gt, may_raise=lambda x: False, from_successors=True) for gt in int_gates)
-        if raises and reachable_for_ints:
-            rej_bool = True
+    # specialised for "the value is True/False": bool is an int, so isinstance(value, int / (.., int, ..)) holds as well;
+    # no normal return may remain
+    def spec_names(e):
+        els = e.elts if isinstance(e, (ast.Tuple, ast.List)) else [e]
+        out = []
+        for x in els:
+            if isinstance(x, ast.Name):
+                out.append(x.id)
+            elif isinstance(x, (ast.Tuple, ast.List)):
+                out += spec_names(x)
+            else:
+                out.append(None)
+        return out
+
+    def decide_bool(e, node):
+        if isinstance(e, ast.Call) and isinstance(e.func, ast.Name) and e.func.id == "isinstance" and len(e.args) == 2 \
+                and isinstance(e.args[0], ast.Name) and all(k == "param" and p_ == vparam for k, p_ in (value_sources(nv, e.args[0], node) or [("?", None)])):
+            spec_e = e.args[1]
+            if isinstance(spec_e, ast.Name) and spec_e.id not in ("bool", "int", "float", "str", "object", "complex"):
+                srcs = value_sources(nv, spec_e, node)
+                if len(srcs) == 1 and srcs[0][0] == "expr" and isinstance(srcs[0][1], (ast.Tuple, ast.List)):
+                    spec_e = srcs[0][1]
+            names = spec_names(spec_e)
+            if any(n_ in ("bool", "int", "object") for n_ in names):
+                return True
+            if all(n_ is not None for n_ in names):
+                return False
+        return None
+    spb_ = Spec(an, nv, decide_bool)
+    rej_bool = not spb_.normal_returns() and not spb_.falls_off() and bool(spb_.raises())
     ctx.ob("number.rejects-bool", nv, "isinstance(value, bool) -> raise", rej_bool, "True/False are not accepted as numbers" if rej_bool else
            "NumberField accepts bool values as numbers")
     conv = [n for n in g.nodes if n.kind == "call" and isinstance(n.ast.func, ast.Attribute) and n.ast.func.attr == "type_cls"]
